@@ -17,7 +17,7 @@ const P: &str = "C14";
 /// {true,false} x {0, +-1, +-sqrt(1/den), +-sqrt(zeta/den), +-honest, zeta*honest, randoms}.
 /// The case block only ever constrains y^2 to 1/den (1 if den = 0), 0 or zeta/den, so this
 /// set contains every value that can satisfy any case equation.
-fn candidates(ctx: &Ctx, den: &B, honest_y: &B, extra_random: &[B]) -> Vec<(bool, B, &'static str)> {
+pub fn candidates(ctx: &Ctx, den: &B, honest_y: &B, extra_random: &[B]) -> Vec<(bool, B, &'static str)> {
     let f = &ctx.c.f;
     let mut ys: Vec<(B, &'static str)> = vec![(b(0), "y=0"), (b(1), "y^2=1"), (f.neg(&b(1)), "y^2=1")];
     if let Some(inv) = f.inv(den) {
